@@ -7,6 +7,7 @@ sys.path.insert(0, ROOT)
 from sa.normalize import _functions, local_names, local_heads
 repo = sys.argv[1] if len(sys.argv) > 1 else "/repo"
 out = {}
+mod_assigns = {}
 for dp, dn, fns in sorted(os.walk(os.path.join(repo, "maze_dataset"))):
     dn[:] = sorted(d for d in dn if d != "__pycache__")
     for fn in sorted(fns):
@@ -18,9 +19,11 @@ for dp, dn, fns in sorted(os.walk(os.path.join(repo, "maze_dataset"))):
             rel = rel[:-1]
         mod = ".".join(rel)
         tree = ast.parse(open(p).read())
+        mod_assigns[mod] = sorted({t.id for st in tree.body for t in ((st.targets if isinstance(st, ast.Assign) else [st.target]) if isinstance(st, (ast.Assign, ast.AnnAssign)) else [])
+                                   if isinstance(t, ast.Name)})
         for q, f, c, b in _functions(tree, mod):
             out[q] = {"locals": local_names(f), "heads": local_heads(f)}
 json.dump({"_comment": "pinned tree: function -> locals in order of first binding (hints for behaviour-preserving normalisation only)",
-           "commit": os.popen(f"git -C {repo} rev-parse --short HEAD").read().strip(), "functions": out},
+           "commit": os.popen(f"git -C {repo} rev-parse --short HEAD").read().strip(), "functions": out, "module_assigns": mod_assigns},
           open(os.path.join(ROOT, "reference", "pinned_names.json"), "w"), indent=0)
 print(len(out), "functions")
